@@ -102,6 +102,14 @@ func NewBatchSpanProcessor(exporter SpanExporter, options ...BatchSpanProcessorO
 	for _, opt := range options {
 		opt(&o)
 	}
+	// Negative sizes (from the environment or an option) are invalid, ignore
+	// them in favour of the defaults instead of panicking below.
+	if o.MaxQueueSize < 0 {
+		o.MaxQueueSize = DefaultMaxQueueSize
+	}
+	if o.MaxExportBatchSize < 0 {
+		o.MaxExportBatchSize = DefaultMaxExportBatchSize
+	}
 	bsp := &batchSpanProcessor{
 		e:      exporter,
 		o:      o,
